@@ -10,43 +10,43 @@ namespace UgoVerif.Proofs.Shift
 open UgoVerif UgoVerif.Go UgoVerif.VM
 
 section
-variable {bp k d H N : Nat} {a : Int}
+variable {T0 : State} {bp k d H N : Nat} {a : Int}
 
-theorem sh_execPop (ha : a ≤ N) (hH : H ≤ N) : RelS (Sh bp k d H N a) (PostC bp k) execPop execPop := by
+theorem sh_execPop (ha : a ≤ N) (hH : H ≤ N) : RelS (Sh T0 bp k d H N a) (PostC T0 bp k) execPop execPop := by
   unfold execPop; shrun
-theorem sh_execNull (ha : a ≤ N) (hH : H ≤ N) : RelS (Sh bp k d H N a) (PostC bp k) execNull execNull := by
+theorem sh_execNull (ha : a ≤ N) (hH : H ≤ N) : RelS (Sh T0 bp k d H N a) (PostC T0 bp k) execNull execNull := by
   unfold execNull; shrun
-theorem sh_execTrue (ha : a ≤ N) (hH : H ≤ N) : RelS (Sh bp k d H N a) (PostC bp k) execTrue execTrue := by
+theorem sh_execTrue (ha : a ≤ N) (hH : H ≤ N) : RelS (Sh T0 bp k d H N a) (PostC T0 bp k) execTrue execTrue := by
   unfold execTrue; shrun
-theorem sh_execFalse (ha : a ≤ N) (hH : H ≤ N) : RelS (Sh bp k d H N a) (PostC bp k) execFalse execFalse := by
+theorem sh_execFalse (ha : a ≤ N) (hH : H ≤ N) : RelS (Sh T0 bp k d H N a) (PostC T0 bp k) execFalse execFalse := by
   unfold execFalse; shrun
-theorem sh_execNoOp (ha : a ≤ N) (hH : H ≤ N) : RelS (Sh bp k d H N a) (PostC bp k) execNoOp execNoOp := by
+theorem sh_execNoOp (ha : a ≤ N) (hH : H ≤ N) : RelS (Sh T0 bp k d H N a) (PostC T0 bp k) execNoOp execNoOp := by
   unfold execNoOp; shrun
-theorem sh_execConstant (ha : a ≤ N) (hH : H ≤ N) : RelS (Sh bp k d H N a) (PostC bp k) execConstant execConstant := by
+theorem sh_execConstant (ha : a ≤ N) (hH : H ≤ N) : RelS (Sh T0 bp k d H N a) (PostC T0 bp k) execConstant execConstant := by
   unfold execConstant; shrun
-theorem sh_execGetBuiltin (ha : a ≤ N) (hH : H ≤ N) : RelS (Sh bp k d H N a) (PostC bp k) execGetBuiltin execGetBuiltin := by
+theorem sh_execGetBuiltin (ha : a ≤ N) (hH : H ≤ N) : RelS (Sh T0 bp k d H N a) (PostC T0 bp k) execGetBuiltin execGetBuiltin := by
   unfold execGetBuiltin; shrun
-theorem sh_execJump (ha : a ≤ N) (hH : H ≤ N) : RelS (Sh bp k d H N a) (PostC bp k) execJump execJump := by
+theorem sh_execJump (ha : a ≤ N) (hH : H ≤ N) : RelS (Sh T0 bp k d H N a) (PostC T0 bp k) execJump execJump := by
   unfold execJump; shrun
-theorem sh_execJumpFalsy (ha : a ≤ N) (hH : H ≤ N) : RelS (Sh bp k d H N a) (PostC bp k) execJumpFalsy execJumpFalsy := by
+theorem sh_execJumpFalsy (ha : a ≤ N) (hH : H ≤ N) : RelS (Sh T0 bp k d H N a) (PostC T0 bp k) execJumpFalsy execJumpFalsy := by
   unfold execJumpFalsy; shrun
-theorem sh_execAndJump (ha : a ≤ N) (hH : H ≤ N) : RelS (Sh bp k d H N a) (PostC bp k) execAndJump execAndJump := by
+theorem sh_execAndJump (ha : a ≤ N) (hH : H ≤ N) : RelS (Sh T0 bp k d H N a) (PostC T0 bp k) execAndJump execAndJump := by
   unfold execAndJump; shrun
-theorem sh_execOrJump (ha : a ≤ N) (hH : H ≤ N) : RelS (Sh bp k d H N a) (PostC bp k) execOrJump execOrJump := by
+theorem sh_execOrJump (ha : a ≤ N) (hH : H ≤ N) : RelS (Sh T0 bp k d H N a) (PostC T0 bp k) execOrJump execOrJump := by
   unfold execOrJump; shrun
 theorem sh_execEqual (F : FloatOps) (op : Nat) (ha : a ≤ N) (hH : H ≤ N) :
-    RelS (Sh bp k d H N a) (PostC bp k) (execEqual F op) (execEqual F op) := by
+    RelS (Sh T0 bp k d H N a) (PostC T0 bp k) (execEqual F op) (execEqual F op) := by
   unfold execEqual; shrun
 theorem sh_execBinaryOp (F : FloatOps) (ha : a ≤ N) (hH : H ≤ N) :
-    RelS (Sh bp k d H N a) (PostC bp k) (execBinaryOp F) (execBinaryOp F) := by
+    RelS (Sh T0 bp k d H N a) (PostC T0 bp k) (execBinaryOp F) (execBinaryOp F) := by
   unfold execBinaryOp; shrun
 theorem sh_execUnary (F : FloatOps) (ha : a ≤ N) (hH : H ≤ N) :
-    RelS (Sh bp k d H N a) (PostC bp k) (execUnary F) (execUnary F) := by
+    RelS (Sh T0 bp k d H N a) (PostC T0 bp k) (execUnary F) (execUnary F) := by
   unfold execUnary; shrun
 
 
 theorem sh_execGetLocal (ha : a ≤ N) (hH : H ≤ N) :
-    RelS (fun s t => Sh bp k d H N a s t ∧ OpLt s) (PostC bp k) execGetLocal execGetLocal := by
+    RelS (fun s t => Sh T0 bp k d H N a s t ∧ OpLt s) (PostC T0 bp k) execGetLocal execGetLocal := by
   unfold execGetLocal
   refine RelS.bind sh_opnd1_lt ?_
   intro idx idx'
@@ -83,7 +83,7 @@ theorem RelS.keepL {α β} {A : State → State → Prop} {Q : α → β → Sta
   exact ⟨hm _ t h.1 x _ y t' h1 h2, h.2⟩
 
 theorem sh_execSetLocal (ha : a ≤ N) (hH : H ≤ N) :
-    RelS (fun s t => Sh bp k d H N a s t ∧ OpLt s) (PostC bp k) execSetLocal execSetLocal := by
+    RelS (fun s t => Sh T0 bp k d H N a s t ∧ OpLt s) (PostC T0 bp k) execSetLocal execSetLocal := by
   unfold execSetLocal
   refine RelS.bind sh_opnd1_lt ?_
   intro idx idx'
@@ -91,14 +91,14 @@ theorem sh_execSetLocal (ha : a ≤ N) (hH : H ≤ N) :
   subst h1
   refine RelS.bind (RelS.keepL sh_getSp getSp_ro) ?_
   intro sp sp'
-  refine RelS.conseq (A := fun s t => (a = sp ∧ a + bp = sp') ∧ (Sh bp k d H N a s t ∧ (s.frames[d]!).bp + (idx : Int) < a)) ?_
+  refine RelS.conseq (A := fun s t => (a = sp ∧ a + bp = sp') ∧ (Sh T0 bp k d H N a s t ∧ (s.frames[d]!).bp + (idx : Int) < a)) ?_
     (fun s t h => ⟨h.1.1, h.1.2, h.2⟩) (fun _ _ _ _ h => h)
   refine RelS.pre_and fun hsp => ?_
   obtain ⟨hsp1, hsp2⟩ := hsp
   subst hsp1; subst hsp2
   refine RelS.bind (RelS.keepL (sh_stackGet _ _ (by omega) (by omega)) (stackGet_ro _)) ?_
   intro v v'
-  refine RelS.conseq (A := fun s t => v = v' ∧ (Sh bp k d H N a s t ∧ (s.frames[d]!).bp + (idx : Int) < a)) ?_
+  refine RelS.conseq (A := fun s t => v = v' ∧ (Sh T0 bp k d H N a s t ∧ (s.frames[d]!).bp + (idx : Int) < a)) ?_
     (fun s t h => ⟨h.1.1, h.1.2, h.2⟩) (fun _ _ _ _ h => h)
   refine RelS.pre_and fun hv => ?_
   subst hv
@@ -109,7 +109,7 @@ theorem sh_execSetLocal (ha : a ≤ N) (hH : H ≤ N) :
   dsimp only
   shrun
 theorem sh_execGetLocalPtr (ha : a ≤ N) (hH : H ≤ N) :
-    RelS (fun s t => Sh bp k d H N a s t ∧ OpLt s) (PostC bp k) execGetLocalPtr execGetLocalPtr := by
+    RelS (fun s t => Sh T0 bp k d H N a s t ∧ OpLt s) (PostC T0 bp k) execGetLocalPtr execGetLocalPtr := by
   unfold execGetLocalPtr
   refine RelS.bind sh_opnd1_lt ?_
   intro idx idx'
@@ -121,45 +121,45 @@ theorem sh_execGetLocalPtr (ha : a ≤ N) (hH : H ≤ N) :
   subst e1 e2 e3 e5
   dsimp only
   shrun
-theorem sh_execDefineLocal (ha : a ≤ N) (hH : H ≤ N) : RelS (Sh bp k d H N a) (PostC bp k) execDefineLocal execDefineLocal := by
+theorem sh_execDefineLocal (ha : a ≤ N) (hH : H ≤ N) : RelS (Sh T0 bp k d H N a) (PostC T0 bp k) execDefineLocal execDefineLocal := by
   unfold execDefineLocal; shrun
-theorem sh_execGetFree (ha : a ≤ N) (hH : H ≤ N) : RelS (Sh bp k d H N a) (PostC bp k) execGetFree execGetFree := by
+theorem sh_execGetFree (ha : a ≤ N) (hH : H ≤ N) : RelS (Sh T0 bp k d H N a) (PostC T0 bp k) execGetFree execGetFree := by
   unfold execGetFree; shrun
-theorem sh_execSetFree (ha : a ≤ N) (hH : H ≤ N) : RelS (Sh bp k d H N a) (PostC bp k) execSetFree execSetFree := by
+theorem sh_execSetFree (ha : a ≤ N) (hH : H ≤ N) : RelS (Sh T0 bp k d H N a) (PostC T0 bp k) execSetFree execSetFree := by
   unfold execSetFree; shrun
-theorem sh_execGetFreePtr (ha : a ≤ N) (hH : H ≤ N) : RelS (Sh bp k d H N a) (PostC bp k) execGetFreePtr execGetFreePtr := by
+theorem sh_execGetFreePtr (ha : a ≤ N) (hH : H ≤ N) : RelS (Sh T0 bp k d H N a) (PostC T0 bp k) execGetFreePtr execGetFreePtr := by
   unfold execGetFreePtr; shrun
-theorem sh_execGetGlobal (ha : a ≤ N) (hH : H ≤ N) : RelS (Sh bp k d H N a) (PostC bp k) execGetGlobal execGetGlobal := by
+theorem sh_execGetGlobal (ha : a ≤ N) (hH : H ≤ N) : RelS (Sh T0 bp k d H N a) (PostC T0 bp k) execGetGlobal execGetGlobal := by
   unfold execGetGlobal; shrun
-theorem sh_execSetGlobal (ha : a ≤ N) (hH : H ≤ N) : RelS (Sh bp k d H N a) (PostC bp k) execSetGlobal execSetGlobal := by
+theorem sh_execSetGlobal (ha : a ≤ N) (hH : H ≤ N) : RelS (Sh T0 bp k d H N a) (PostC T0 bp k) execSetGlobal execSetGlobal := by
   unfold execSetGlobal; shrun
-theorem sh_execSetIndex (ha : a ≤ N) (hH : H ≤ N) : RelS (Sh bp k d H N a) (PostC bp k) execSetIndex execSetIndex := by
+theorem sh_execSetIndex (ha : a ≤ N) (hH : H ≤ N) : RelS (Sh T0 bp k d H N a) (PostC T0 bp k) execSetIndex execSetIndex := by
   unfold execSetIndex; shrun
 set_option maxHeartbeats 3200000 in
-theorem sh_execSliceIndex (ha : a ≤ N) (hH : H ≤ N) : RelS (Sh bp k d H N a) (PostC bp k) execSliceIndex execSliceIndex := by
+theorem sh_execSliceIndex (ha : a ≤ N) (hH : H ≤ N) : RelS (Sh T0 bp k d H N a) (PostC T0 bp k) execSliceIndex execSliceIndex := by
   unfold execSliceIndex; shrun
-theorem sh_execIterInit (ha : a ≤ N) (hH : H ≤ N) : RelS (Sh bp k d H N a) (PostC bp k) execIterInit execIterInit := by
+theorem sh_execIterInit (ha : a ≤ N) (hH : H ≤ N) : RelS (Sh T0 bp k d H N a) (PostC T0 bp k) execIterInit execIterInit := by
   unfold execIterInit; shrun
 set_option maxHeartbeats 3200000 in
 theorem sh_execIterNext (op : Nat) (ha : a ≤ N) (hH : H ≤ N) :
-    RelS (Sh bp k d H N a) (PostC bp k) (execIterNext op) (execIterNext op) := by
+    RelS (Sh T0 bp k d H N a) (PostC T0 bp k) (execIterNext op) (execIterNext op) := by
   unfold execIterNext; shrun
-theorem sh_execLoadModule (ha : a ≤ N) (hH : H ≤ N) : RelS (Sh bp k d H N a) (PostC bp k) execLoadModule execLoadModule := by
+theorem sh_execLoadModule (ha : a ≤ N) (hH : H ≤ N) : RelS (Sh T0 bp k d H N a) (PostC T0 bp k) execLoadModule execLoadModule := by
   unfold execLoadModule; shrun
-theorem sh_execStoreModule (ha : a ≤ N) (hH : H ≤ N) : RelS (Sh bp k d H N a) (PostC bp k) execStoreModule execStoreModule := by
+theorem sh_execStoreModule (ha : a ≤ N) (hH : H ≤ N) : RelS (Sh T0 bp k d H N a) (PostC T0 bp k) execStoreModule execStoreModule := by
   unfold execStoreModule; shrun
 
-theorem sh_execArray (ha : a ≤ N) (hH : H ≤ N) : RelS (Sh bp k d H N a) (PostC bp k) execArray execArray := by
+theorem sh_execArray (ha : a ≤ N) (hH : H ≤ N) : RelS (Sh T0 bp k d H N a) (PostC T0 bp k) execArray execArray := by
   unfold execArray; shrun
-theorem sh_execClosure (ha : a ≤ N) (hH : H ≤ N) : RelS (Sh bp k d H N a) (PostC bp k) execClosure execClosure := by
+theorem sh_execClosure (ha : a ≤ N) (hH : H ≤ N) : RelS (Sh T0 bp k d H N a) (PostC T0 bp k) execClosure execClosure := by
   unfold execClosure; shrun
 
-theorem sh_execGetIndex (ha : a ≤ N) (hH : H ≤ N) : RelS (Sh bp k d H N a) (PostC bp k) execGetIndex execGetIndex := by
+theorem sh_execGetIndex (ha : a ≤ N) (hH : H ≤ N) : RelS (Sh T0 bp k d H N a) (PostC T0 bp k) execGetIndex execGetIndex := by
   unfold execGetIndex
   sh1; sh1; sh1
-  refine RelS.bind (RelS.forIn_upto_exit (A := Sh bp k d H N a)
+  refine RelS.bind (RelS.forIn_upto_exit (A := Sh T0 bp k d H N a)
       (VR := fun u u' => u = u' ∧ u.1 = none)
-      (E := fun u u' s t => ∃ r r', u.1 = some r ∧ u'.1 = some r' ∧ PostC bp k r r' s t) _ _ _ _ _ ⟨rfl, rfl⟩ ?_) ?_
+      (E := fun u u' s t => ∃ r r', u.1 = some r ∧ u'.1 = some r' ∧ PostC T0 bp k r r' s t) _ _ _ _ _ ⟨rfl, rfl⟩ ?_) ?_
   · intro i hi b b' hb
     obtain ⟨hb1, hb2⟩ := hb
     subst hb1
@@ -171,7 +171,7 @@ theorem sh_execGetIndex (ha : a ≤ N) (hH : H ≤ N) : RelS (Sh bp k d H N a) (
     intro res _ h; subst h
     split
     · -- error: the adjusted error is thrown
-      refine RelS.bindV (B := Sh bp k d H N a) (VR := Eq) ?_ ?_
+      refine RelS.bindV (B := Sh T0 bp k d H N a) (VR := Eq) ?_ ?_
       · apply sh_foot; foot
       · intro e' _ h; subst h
         refine RelS.bind (sh_failWith e' (by omega) (by omega)) ?_
@@ -197,13 +197,13 @@ theorem sh_execGetIndex (ha : a ≤ N) (hH : H ≤ N) : RelS (Sh bp k d H N a) (
 def OpEven (s : State) : Prop := ∀ n s', exec (opnd2 1) s = (.ok n, s') → n % 2 = 0
 
 theorem sh_opnd2_even :
-    RelS (fun s t => Sh bp k d H N a s t ∧ OpEven s) (PQ (fun x y => x = y ∧ x % 2 = 0) (Sh bp k d H N a)) (opnd2 1) (opnd2 1) := by
+    RelS (fun s t => Sh T0 bp k d H N a s t ∧ OpEven s) (PQ (fun x y => x = y ∧ x % 2 = 0) (Sh T0 bp k d H N a)) (opnd2 1) (opnd2 1) := by
   intro s t h x s' y t' h1 h2
   have := sh_foot (foot_opnd2 1) s t h.1 x s' y t' h1 h2
   exact ⟨⟨this.1, h.2 x s' h1⟩, this.2⟩
 
 theorem sh_execMap (ha : a ≤ N) (hH : H ≤ N) :
-    RelS (fun s t => Sh bp k d H N a s t ∧ OpEven s) (PostC bp k) execMap execMap := by
+    RelS (fun s t => Sh T0 bp k d H N a s t ∧ OpEven s) (PostC T0 bp k) execMap execMap := by
   unfold execMap
   refine RelS.bindV sh_opnd2_even ?_
   intro n _ ⟨h1, hn⟩
@@ -224,10 +224,10 @@ def coveredOps : List Nat :=
 def localReadOps : List Nat := [OpGetLocal, OpSetLocal, OpGetLocalPtr]
 
 theorem sh_dispatch (F : FloatOps) (op : Nat) (hcov : op ∈ coveredOps) (ha : a ≤ N) (hH : H ≤ N) :
-    RelS (fun s t => Sh bp k d H N a s t ∧ (op ∈ localReadOps → OpLt s) ∧ (op = OpMap → OpEven s)) (PostC bp k)
+    RelS (fun s t => Sh T0 bp k d H N a s t ∧ (op ∈ localReadOps → OpLt s) ∧ (op = OpMap → OpEven s)) (PostC T0 bp k)
       (dispatch F op) (dispatch F op) := by
-  have weak : ∀ {m : M Ctl}, RelS (Sh bp k d H N a) (PostC bp k) m m →
-      RelS (fun s t => Sh bp k d H N a s t ∧ (op ∈ localReadOps → OpLt s) ∧ (op = OpMap → OpEven s)) (PostC bp k) m m :=
+  have weak : ∀ {m : M Ctl}, RelS (Sh T0 bp k d H N a) (PostC T0 bp k) m m →
+      RelS (fun s t => Sh T0 bp k d H N a s t ∧ (op ∈ localReadOps → OpLt s) ∧ (op = OpMap → OpEven s)) (PostC T0 bp k) m m :=
     fun h => h.conseq (fun _ _ h => h.1) (fun _ _ _ _ h => h)
   simp only [coveredOps, List.mem_cons, List.not_mem_nil, or_false] at hcov
   rcases hcov with h | h | h | h | h | h | h | h | h | h | h | h | h | h | h | h | h | h | h | h | h | h | h | h | h | h | h | h | h | h | h | h | h | h | h | h <;> subst h
@@ -276,7 +276,7 @@ def fetchOp : M Nat := do
 theorem step_eq (F : FloatOps) : step F = (fetchOp >>= fun op => noteTrace op >>= fun _ => dispatch F op) := by
   simp only [step, fetchOp, bind_assoc]
 
-theorem sh_fetchOp : RelS (Sh bp k d H N a) (PQ Eq (Sh bp k d H N a)) fetchOp fetchOp := by
+theorem sh_fetchOp : RelS (Sh T0 bp k d H N a) (PQ Eq (Sh T0 bp k d H N a)) fetchOp fetchOp := by
   unfold fetchOp
   refine RelS.bindV (sh_bumpIp 1) ?_
   intro _ _ _
